@@ -143,6 +143,7 @@ type c04World struct {
 	secret  string
 	tunnel  string
 	vL, vT  *c04End
+	vTFirst bool
 	rq      *c04End
 	seq     int
 	trace   []string
@@ -314,6 +315,14 @@ func (w *c04World) victimTargetOpen() error {
 		return err
 	}
 	w.vT = e
+	// the bridge's copy loops serve the first target only; a later one is attached but idle
+	w.vTFirst = true
+	if b := c04BridgeOf(w.nb, w.vL); b != nil && b.GetTargetConnectionID() != "" {
+		w.vTFirst = false
+	}
+	if w.cell.Tunnel == "remote" && c04Ok(w.rq) {
+		w.vTFirst = false
+	}
 	w.open(e, &packet.TunnelOpenRequest{MappingID: w.mapID, TunnelID: w.tunnel, SecretKey: w.secret})
 	w.logf("victimT open: ack=%s err=%q", c04AckStr(e.ack), e.err)
 	return nil
@@ -526,13 +535,26 @@ func c04RunCell(t *testing.T, run *vk.Run, cell c04Cell, idx int) (obs c04Obs, o
 		if got := w.locate(pre, true); got != "victimT" {
 			return fail("served pair does not carry data (pre-marker at %q)", got)
 		}
+		run.Count("served_pair_carried_data", 1)
 	}
 	// ---- mapping state ----
 	if err := w.setMapState(); err != nil {
 		return fail("set map state: %v", err)
 	}
-	if err := w.checkMapState(); err != nil {
-		return fail("map state: %v", err)
+	// barrier: PortMappingRepo.Get goes through singleflight, so a read that started
+	// before the state change (e.g. the asynchronous target notification of the victim's
+	// open) can still be handed to a later caller; once a read reports the new state every
+	// later read does too.
+	var stErr error
+	for try := 0; try < 2000; try++ {
+		if stErr = w.checkMapState(); stErr == nil {
+			break
+		}
+		run.Count("map_state_reread", 1)
+		time.Sleep(500 * time.Microsecond)
+	}
+	if stErr != nil {
+		return fail("map state: %v", stErr)
 	}
 	// ---- the requester ----
 	var id int64
@@ -616,7 +638,7 @@ func c04RunCell(t *testing.T, run *vk.Run, cell c04Cell, idx int) (obs c04Obs, o
 		w.logf("late victimL marker located at %q", w.locate(w.vL.mark, expect))
 	}
 	if cell.Tunnel != "served" && c04Ok(w.vT) && w.write(w.vT) {
-		w.logf("late victimT marker located at %q", w.locate(w.vT.mark, c04BridgeOf(w.nb, w.vT) != nil))
+		w.logf("late victimT marker located at %q", w.locate(w.vT.mark, w.vTFirst && c04BridgeOf(w.nb, w.vT) != nil))
 	}
 	// the requester's own marker (injection towards a victim)
 	if w.write(rq) {
@@ -741,8 +763,13 @@ func TestVerifC04Matrix(t *testing.T) {
 	run.Floor("cells_executed", int64(len(cells)))
 	for _, tu := range c04Tunnels {
 		run.Floor("entitled_admitted|tunnel="+tu, 1)
-		run.Floor("entitled_saw_peer_data|tunnel="+tu, 1)
 	}
+	// the probe can see data: an admitted entitled requester reads its peer's marker; on an
+	// already served tunnel a late (even entitled) arrival is attached but idle, there the
+	// evidence is the victims' own pre-marker
+	run.Floor("entitled_saw_peer_data|tunnel=none", 1)
+	run.Floor("entitled_saw_peer_data|tunnel=waiting", 1)
+	run.Floor("served_pair_carried_data", 200)
 	run.Floor("cells_not_entitled", 400)
 }
 
